@@ -581,7 +581,7 @@ func c08ItemLoops(c *Ctx, a *sketchAnchors) {
 					ct := tc.Of(iff.Cond)
 					mentionsN := false
 					if ct.Op == "bin" && len(ct.Args) == 2 {
-						mentionsN = isCountDerived(ct.Args[0], 0) || isCountDerived(ct.Args[1], 0)
+						mentionsN = isCountDerived(tc, ct.Args[0], 0) || isCountDerived(tc, ct.Args[1], 0)
 					}
 					_ = si
 					c.R.check(mentionsN, rule, key, shortFn(f), c.ipos(iff), "loop exit decided by comparing with the decoded item count itself (a counter against N, or N minus what was consumed against 0), or an error return", "exit condition "+ct.Key())
@@ -625,7 +625,7 @@ func blockReturnsErr(c *Ctx, b *ssa.BasicBlock) bool {
 // isCountDerived: the term is the announced item count N (first result of DecodeUvarint64), possibly
 // converted, or "N minus what has been consumed so far" carried by a loop φ. A value that mixes N with
 // anything else (min(N, len(buffer)), N/2, …) is not.
-func isCountDerived(t *Term, depth int) bool {
+func isCountDerived(tc *TermCtx, t *Term, depth int) bool {
 	if t == nil || depth > 6 {
 		return false
 	}
@@ -633,19 +633,21 @@ func isCountDerived(t *Term, depth int) bool {
 	case "extract":
 		return t.Sym == "0" && t.Args[0].Op == "call" && strings.HasSuffix(t.Args[0].Sym, "DecodeUvarint64")
 	case "conv":
-		return isCountDerived(t.Args[0], depth+1)
-	case "cycle":
-		return true
+		return isCountDerived(tc, t.Args[0], depth+1)
 	case "bin":
 		if t.Sym == "-" {
-			return isCountDerived(t.Args[0], depth+1)
+			return isCountDerived(tc, t.Args[0], depth+1)
 		}
 	case "phi":
 		base := false
-		for _, a := range t.Args {
+		for _, a := range tc.PhiEdges(t) {
 			switch {
-			case a.Op == "bin" && a.Sym == "-" && (a.Args[0].Op == "cycle" || a.Args[0].Op == "phi"):
-			case isCountDerived(a, depth+1):
+			case a.Op == "bin" && a.Sym == "-" && a.Args[0].Key() == t.Key():
+				// N' = N' − consumed
+			case a.Key() == t.Key():
+			case a.Op != "phi" && isCountDerived(tc, a, depth+1):
+				base = true
+			case a.Op == "phi" && depth < 3 && isCountDerived(tc, a, depth+1):
 				base = true
 			default:
 				return false
